@@ -227,7 +227,7 @@ func execFn(f []string) vlib.Res {
 	}
 	if f[1] == "new" {
 		switch f[0] {
-		case "mc", "mnz", "mttl", "nsttl", "lease", "rem", "repl", "dpx":
+		case "mc", "mnz", "mttl", "nsttl", "lease", "rem", "repl", "dpx", "wr":
 			return vlib.Res{Impl: "ok"} // case header of a stateless group (shrinker anchor)
 		}
 	}
@@ -372,6 +372,26 @@ func execFn(f []string) vlib.Res {
 			}
 		}
 		return vlib.Res{Impl: fmtT(got) + " " + strconv.FormatUint(gk, 10), Oracle: or, Tags: "nt"}
+	case "wr":
+		// every REAL write entry point of the answer cache keeps the delegation cut it is handed:
+		// wr <key|subq|scoped|prefetch|prefetch-ecs> <pos|nx|nodata> <ttl s> <cut|z> <cutKey> <ecs cap s>
+		cut, ck := parseT(f[4]), vlib.AtoU64(f[5])
+		capd := time.Duration(vlib.AtoI64(f[6])) * time.Second
+		gotCut, gotKey, found := cache.VerifC08Write(f[1], f[2], uint32(vlib.AtoU64(f[3])), cut, ck, capd)
+		impl := "none"
+		or := "ok"
+		if found {
+			impl = fmt.Sprintf("cut=%s key=%d", fmtT(gotCut), gotKey)
+			if !cut.IsZero() {
+				switch {
+				case gotCut.IsZero():
+					or = fmt.Sprintf("FAIL sig=cache-write/%s/drops-cut/%s", f[1], f[2])
+				case gotCut.After(cut):
+					or = fmt.Sprintf("FAIL sig=cache-write/%s/extends-cut/%s", f[1], f[2])
+				}
+			}
+		}
+		return vlib.Res{Impl: impl, Oracle: or, Tags: "nt,wr-" + f[1]}
 	case "dpx":
 		// lifetime of a denial proof the cache synthesizes from (RFC 8198 index; the RFC 8020 cut uses the same bounds):
 		// dpx <now> <maxTTL s> <cut|z> <soa ttl> <soa minimum> <nsec ttls|->
@@ -495,7 +515,18 @@ func genTTLs(r *vlib.R, allowEmpty bool) string {
 func genFnCase(r *vlib.R, emit func(string)) int {
 	n := 0
 	e := func(s string) { emit(s); n++ }
-	switch r.Intn(10) {
+	switch r.Intn(11) {
+	case 10: // the write entry points of the answer cache
+		e("wr new")
+		for i := 0; i < 6; i++ {
+			cut := "z"
+			if r.Chance(5, 6) {
+				// relative to the real clock at op time: the scoped ECS cap is measured from time.Now()
+				cut = tilde(r, fmt.Sprint(vlib.Pick(r, []int64{2e9, 30e9, 300e9, 3600e9, 86400e9})+int64(r.Range(-1, 1))))
+			}
+			e(fmt.Sprintf("wr %s %s %d %s %d %d", vlib.Pick(r, []string{"key", "subq", "scoped", "scoped", "prefetch", "prefetch-ecs"}),
+				vlib.Pick(r, []string{"pos", "nx", "nodata"}), vlib.Pick(r, []int{1, 60, 300, 86400}), cut, 1+r.Intn(9), vlib.Pick(r, []int{0, 0, 1, 60, 3600, 86400})))
+		}
 	case 9: // synthesized denials
 		e("dpx new")
 		for i := 0; i < 8; i++ {
